@@ -281,7 +281,7 @@ func init() {
 	harn.Register(harn.Scenario{Property: "C06", Name: "makeref-windows", Run: func(c *harn.Ctx) *harn.Result {
 		r := harn.NewResult("enum")
 		n := startNode("verif@localhost", gen.NetworkModeDisabled)
-		defer n.StopForce()
+		defer dropNode(n)
 		width := 1 << 20
 		if c.Thorough {
 			width = 1 << 22
